@@ -6,6 +6,7 @@ package c04
 import (
 	"context"
 	"fmt"
+	ebu "github.com/jilio/ebu"
 	"runtime"
 	"sync"
 	"sync/atomic"
@@ -35,9 +36,13 @@ func TestC04Sequences(t *testing.T) {
 	maxLen := run.Scale(4, 5)
 	var rec func(seq []string)
 	emit := func(seq []string) {
-		for variant := 0; variant < 64; variant++ {
+		for variant := 0; variant < 128; variant++ {
 			async, filter, ctxAware, sameClass := variant&1 != 0, variant&2 != 0, variant&4 != 0, variant&8 != 0
 			seqOpt, loneResub := variant&16 != 0, variant&32 != 0
+			viaReplay := variant&64 != 0 // the once handler is registered through SubscribeWithReplay on a persistent bus
+			if viaReplay && (ctxAware || sameClass || loneResub) {
+				continue
+			}
 			if loneResub && (sameClass || async) {
 				continue
 			}
@@ -59,7 +64,10 @@ func TestC04Sequences(t *testing.T) {
 			}
 			p := &prog.Program{Types: []int{idx % len(h.Drivers)}}
 			earlier := &prog.Reg{Class: 0}
-			once := &prog.Reg{Class: 1, Once: true, Async: async, Ctx: ctxAware, Seq: seqOpt}
+			once := &prog.Reg{Class: 1, Once: true, Async: async, Ctx: ctxAware, Seq: seqOpt, Replay: viaReplay}
+			if viaReplay {
+				p.Cfg.Store, p.Cfg.StoreFirst = true, true
+			}
 			if loneResub {
 				// the once handler is the only subscriber and subscribes a successor from inside its invocation
 				once.Script = [][]prog.Op{{{K: prog.Sub, T: 0, Reg: &prog.Reg{Class: 5}}}}
@@ -110,7 +118,7 @@ func TestC04Sequences(t *testing.T) {
 				}
 				nonConsumingFirst = true
 			}
-			run.Case(fmt.Sprintf("%v|a%v f%v c%v s%v q%v l%v", seq, async, filter, ctxAware, sameClass, seqOpt, loneResub), nonConsumingFirst && len(seq) >= 2)
+			run.Case(fmt.Sprintf("%v|a%v f%v c%v s%v q%v l%v r%v", seq, async, filter, ctxAware, sameClass, seqOpt, loneResub, viaReplay), nonConsumingFirst && len(seq) >= 2)
 			if idx == 4321 {
 				run.Sample(map[string]any{"sequence": seq, "program": p})
 			}
@@ -194,6 +202,49 @@ func TestC04Sequences(t *testing.T) {
 			h.Exec(idx, p, nil, after)
 			run.Case(fmt.Sprintf("wide n%d %s", n, shape), true)
 		}
+	}
+	// one option value (or one slice of options) given to several Subscribe calls: the subscriptions
+	// are still separate ones - each Once handler fires exactly once and is then gone
+	type soA struct{ ID int }
+	type soB struct{ ID int }
+	for v := 0; v < 16; v++ {
+		idx++
+		if !run.Mine(idx) {
+			continue
+		}
+		async, seq, filter, twoTypes := v&1 != 0, v&2 != 0, v&4 != 0, v&8 != 0
+		shared := []ebu.SubscribeOption{ebu.Once()}
+		if async {
+			shared = append(shared, ebu.Async())
+		}
+		if seq {
+			shared = append(shared, ebu.Sequential())
+		}
+		if filter {
+			shared = append(shared, ebu.WithFilter(func(e soA) bool { return e.ID > 0 }))
+		}
+		bus := ebu.New()
+		var c1, c2, c3 atomic.Int32
+		ebu.Subscribe(bus, func(soA) { c1.Add(1) }, shared...)
+		ebu.Subscribe(bus, func(soA) { c2.Add(1) }, shared...)
+		if twoTypes {
+			ebu.Subscribe(bus, func(soB) { c3.Add(1) }, shared...)
+		}
+		ebu.Publish(bus, soA{ID: 0}) // rejected by the filter, when there is one
+		ebu.Publish(bus, soA{ID: 1})
+		ebu.Publish(bus, soB{ID: 1})
+		ebu.Publish(bus, soA{ID: 2})
+		bus.Wait()
+		want1 := int32(1)
+		want3 := int32(0)
+		if twoTypes {
+			want3 = 1
+		}
+		sigv := fmt.Sprintf("shared-options async%v seq%v filter%v twoTypes%v", async, seq, filter, twoTypes)
+		if c1.Load() != want1 || c2.Load() != want1 || c3.Load() != want3 || ebu.HandlerCount[soA](bus) != 0 || ebu.HandlerCount[soB](bus) != 0 {
+			run.Violation("once:shared-option-values", fmt.Sprintf("%s: two (three) Once handlers subscribed with the same option values were invoked %d / %d / %d times (want %d / %d / %d) and HandlerCount is %d + %d afterwards (want 0)", sigv, c1.Load(), c2.Load(), c3.Load(), want1, want1, want3, ebu.HandlerCount[soA](bus), ebu.HandlerCount[soB](bus)), map[string]any{"variant": sigv})
+		}
+		run.Case(sigv, true)
 	}
 	run.Count("enumerated_sequences_x_variants", int64(idx))
 	run.Exhaustive(true)
